@@ -519,28 +519,38 @@ func (r *concRun) judge() (*concFinding, concTally) {
 	for _, g := range p.linkG {
 		seq = append(seq, g...)
 	}
-	if p.initialLink >= 0 {
-		in := incarnation{target: p.initialLink, attachS: 1, attachE: 1}
-		if single && len(seq) > 0 {
-			in.unhookS, in.unhookE = seq[0].start, seq[0].end
-		} else if !single {
-			in.unknownUnhook = true
+	if single {
+		// one linker: the order of its LinkTo calls is known. LinkTo(the current target) changes nothing - the link hook
+		// stays attached, so the incarnation simply continues (the linked event must not miss or double a trigger of
+		// its unchanged target); any other call ends the current incarnation and, unless it is LinkTo(nil), starts one
+		cur := -1
+		if p.initialLink >= 0 {
+			incs = append(incs, incarnation{target: p.initialLink, attachS: 1, attachE: 1})
+			cur = 0
 		}
-		incs = append(incs, in)
-	}
-	for i, o := range seq {
-		if o.target < 0 {
-			continue
-		}
-		in := incarnation{target: o.target, attachS: o.start, attachE: o.end}
-		if single {
-			if i+1 < len(seq) {
-				in.unhookS, in.unhookE = seq[i+1].start, seq[i+1].end
+		for _, o := range seq {
+			if cur >= 0 && o.target == incs[cur].target {
+				continue
 			}
-		} else {
-			in.unknownUnhook = true
+			if cur >= 0 {
+				incs[cur].unhookS, incs[cur].unhookE = o.start, o.end
+				cur = -1
+			}
+			if o.target >= 0 {
+				incs = append(incs, incarnation{target: o.target, attachS: o.start, attachE: o.end})
+				cur = len(incs) - 1
+			}
 		}
-		incs = append(incs, in)
+	} else {
+		if p.initialLink >= 0 {
+			incs = append(incs, incarnation{target: p.initialLink, attachS: 1, attachE: 1, unknownUnhook: true})
+		}
+		for _, o := range seq {
+			if o.target < 0 {
+				continue
+			}
+			incs = append(incs, incarnation{target: o.target, attachS: o.start, attachE: o.end, unknownUnhook: true})
+		}
 	}
 	linkSync := func(ev int) bool { return p.epool[ev] != poolShared }
 	for _, t := range p.trigs {
